@@ -89,7 +89,10 @@ def cases(tier):
            + _deckfam.split_scenes('quick')[::2] + _deckfam.overlap_scenes('quick')[::2] + _deckfam.degenerate_scenes('quick')
            + _deckfam.w119_scenes())
     for name, spec in bsc:
-        out.append({'fam': 'B', 'name': name, 'scene': spec, 'configs': d if name.startswith(('split', 'w119', 'overlap', 'single', 'two-v')) else 1})
+        dd = d if name.startswith(('split', 'w119', 'overlap', 'single', 'two-v')) else 1
+        nparts = 12 if dd == 2 else 1
+        for part in range(nparts):
+            out.append({'fam': 'B', 'name': name, 'scene': spec, 'configs': dd, 'part': part, 'nparts': nparts})
     for name, spec in bundle_scenes():
         out.append({'fam': 'BUNDLE', 'name': name, 'scene': spec, 'configs': 1, 'base': BUNDLE_BASE})
     for i, name in enumerate(scenes.witness_names()):
@@ -102,7 +105,7 @@ def cases(tier):
 def weight(case):
     w = {'W': 60, 'B': 6, 'BUNDLE': 4, 'M8': 1}[case['fam']]
     if case['configs'] == 2:
-        w *= 40
+        w *= 4
     elif case['configs'] == 1:
         w *= 4
     elif case['configs'] == 'short':
@@ -150,6 +153,7 @@ def run_case(case):
         cfgs = list(SHORT_CONFIGS)
     else:
         cfgs = list(params.configs(case['configs'], case.get('base')))
+    cfgs = cfgs[case.get('part', 0)::case.get('nparts', 1)]
     if 'only_config' in case:
         cfgs = cfgs[:case['only_config'] + 1]
     for spacing in case.get('spacings', [15.0]):
